@@ -301,3 +301,18 @@ func (k *KeyRing) Has(name string) bool {
 	_, ok := k.pub[name]
 	return ok
 }
+
+// secp256k1 group order
+var curveN, _ = new(big.Int).SetString("fffffffffffffffffffffffffffffffebaaedce6af48a03bbfd25e8cd0364141", 16)
+
+// Malleate returns the other encoding (r, N-s) of an ECDSA signature (r, s): algebraically valid for the
+// same message and key, but not a signature the signer produced (only the low-s form is canonical).
+func Malleate(sig glow.Signature) glow.Signature {
+	sv := new(big.Int).SetBytes(sig[32:64])
+	ns := new(big.Int).Sub(curveN, sv)
+	var out glow.Signature
+	copy(out[:32], sig[:32])
+	b := ns.Bytes()
+	copy(out[64-len(b):], b)
+	return out
+}
